@@ -22,7 +22,9 @@ def replay(ctx, data):
 
 
 BAD_VALUES = {
-    "int": ['"a"', "2.5", "1j", "0.5+0.25"],
+    # also values that are nearly, but not, integers (a tolerance in the type check would let them in)
+    "int": ['"a"', "2.5", "1j", "0.5+0.25", "2.00001", "2.9999999999999996", "3.0000000001", "0.07*100", "100000.4",
+            "1e-9", "sqrt(2)**2"],
     "float": ['"a"', "1j", '"1.5"'],
     "str": ["1", "2.5", "True"],
     "bool": ['"a"', "2", "0.5"],
@@ -34,7 +36,8 @@ def run(ctx):
                 "bracketed / parenthesised / bare lists of int, float, bool and str values and expressions, bodies "
                 "of 1-3 statements using the loop variable in modes, arguments, keyword arguments, statements "
                 "before and after; oracle: loads(script) vs loads(script with every loop textually unrolled), plus "
-                "loop variable invisible afterwards, plus wrongly typed listed values refused; non-trivial = a loop "
+                "loop variable invisible afterwards, plus wrongly typed listed values refused (including nearly-integral floats in int "
+                "loops), plus bodies with register expressions over the loop variable; non-trivial = a loop "
                 "executing at least twice whose body uses the variable; distinct by text")
     n = ctx.n(500, 8000)
     texts = []
@@ -77,4 +80,14 @@ def run(ctx):
         if m3:
             ctx.violation("wrongly typed loop value %s in a %s loop: %s" % (bad, ty, m3), {"kind": "raises", "text": t3})
         texts.append(t3)
+    # register expressions over the loop variable: every iteration has its own transform
+    from props import c08
+    for _ in range(ctx.n(40, 400)):
+        loop, unrolled = c08.loop_rrt_case(ctx.rng)
+        ctx.count("register-expression-over-loop-variable")
+        ctx.case(loop, nontrivial=True)
+        texts.append(loop)
+        m4 = c08.check_loop_rrt(loop, unrolled)
+        if m4:
+            ctx.violation("loop vs unrolling: " + m4, {"kind": "loads_equal", "a": loop, "b": unrolled, "check_vars": False})
     common.loads_corr(ctx, texts, "LOADS(loop)")
